@@ -15,12 +15,19 @@ import (
 	"os/exec"
 	"strings"
 	"sync"
+	"syscall"
 	"time"
 
 	"verifharness/drv"
 )
 
+// a tree that is not sound may make the real code build an absurdly large ammo list: the child may not take the
+// machine down with it (address space capped; the Go runtime then aborts this child only)
+const childAddressSpace = 8 << 30
+
 func childMain() {
+	lim := syscall.Rlimit{Cur: childAddressSpace, Max: childAddressSpace}
+	_ = syscall.Setrlimit(syscall.RLIMIT_AS, &lim)
 	setup()
 	rd := bufio.NewReaderSize(os.Stdin, 1<<16)
 	w := bufio.NewWriter(os.Stdout)
@@ -31,6 +38,10 @@ func childMain() {
 			obs = strings.NewReplacer("\n", " ", "\r", " ", "\t", " ").Replace(obs)
 			_, _ = w.WriteString(obs + "\n")
 			_ = w.Flush()
+			if strings.HasPrefix(obs, "SLOW no result") {
+				// the case is still running somewhere in this process: do not run the next one beside it
+				os.Exit(0)
+			}
 		}
 		if err != nil {
 			return
@@ -170,7 +181,12 @@ func runViaChild(input string) string {
 	select {
 	case r := <-done:
 		if r.err == nil {
-			pool <- c
+			if strings.HasPrefix(r.line, "SLOW no result") {
+				c.kill() // the child leaves after such a reply
+				pool <- nil
+			} else {
+				pool <- c
+			}
 			return strings.TrimRight(r.line, "\r\n")
 		}
 		_ = c.cmd.Wait()
